@@ -34,13 +34,25 @@ pub fn panic_message(e: &(dyn std::any::Any + Send)) -> String {
 // scans the slots and, when one call exceeds HANG_SECS, writes the input to the hang file and
 // ends the process with exit code 3 (the stuck thread cannot be stopped any other way).
 
-pub const HANG_SECS: u64 = 60;
+pub const HANG_SECS: u64 = 30;
 pub const HANG_EXIT_CODE: i32 = 3;
 
 struct Slot {
     since_ms: std::sync::atomic::AtomicU64,
     ptr: std::sync::atomic::AtomicUsize,
     len: std::sync::atomic::AtomicUsize,
+    /// kernel thread id of the owner (from /proc/thread-self), 0 if unknown
+    tid: u64,
+}
+
+/// user + system CPU time of thread `tid` of this process, in seconds
+fn cpu_secs_of(tid: u64) -> Option<f64> {
+    let st = std::fs::read_to_string(format!("/proc/self/task/{tid}/stat")).ok()?;
+    let rest = &st[st.rfind(')')? + 2..];
+    let f: Vec<&str> = rest.split(' ').collect();
+    let ut: f64 = f.get(11)?.parse().ok()?;
+    let stt: f64 = f.get(12)?.parse().ok()?;
+    Some((ut + stt) / 100.0)
 }
 
 static SLOTS: std::sync::Mutex<Vec<std::sync::Arc<Slot>>> = std::sync::Mutex::new(Vec::new());
@@ -58,13 +70,36 @@ pub fn start_watchdog(hang_file: &str) {
         return;
     }
     let _ = now_ms();
-    std::thread::spawn(|| loop {
+    std::thread::spawn(|| {
+        // A call counts as stuck when its thread has *burnt* HANG_SECS of CPU time inside it, not
+        // when HANG_SECS of wall-clock time have passed: on a machine shared with other runs a
+        // thread can be descheduled for a long time inside a call that takes microseconds (seen
+        // once: a false "did not return within 60 s" under a load of 90 on 16 cores). The first
+        // time a call is seen older than 2 s of wall time, the CPU time of its thread is noted;
+        // the call is declared hung when that thread has used HANG_SECS more since. Where the
+        // thread's CPU time cannot be read, ten times HANG_SECS of wall time decide.
+        let mut seen: std::collections::HashMap<usize, (u64, Option<f64>)> = std::collections::HashMap::new();
+        loop {
         std::thread::sleep(std::time::Duration::from_millis(500));
         let now = now_ms();
         let slots: Vec<std::sync::Arc<Slot>> = SLOTS.lock().map(|g| g.clone()).unwrap_or_default();
-        for s in &slots {
+        for (si, s) in slots.iter().enumerate() {
             let since = s.since_ms.load(SeqCst);
-            if since != 0 && now.saturating_sub(since) > HANG_SECS * 1000 {
+            if since == 0 || now.saturating_sub(since) <= 2000 {
+                seen.remove(&si);
+                continue;
+            }
+            let cpu_now = if s.tid != 0 { cpu_secs_of(s.tid) } else { None };
+            let first = *seen.entry(si).or_insert((since, cpu_now));
+            if first.0 != since {
+                seen.insert(si, (since, cpu_now));
+                continue;
+            }
+            let stuck = match (first.1, cpu_now) {
+                (Some(c0), Some(c1)) => c1 - c0 > HANG_SECS as f64,
+                _ => now.saturating_sub(since) > 10 * HANG_SECS * 1000,
+            };
+            if stuck {
                 let (p, l) = (s.ptr.load(SeqCst), s.len.load(SeqCst));
                 // the owning thread is stuck inside the lexer call that borrows this text
                 let bytes = unsafe { std::slice::from_raw_parts(p as *const u8, l) };
@@ -76,9 +111,10 @@ pub fn start_watchdog(hang_file: &str) {
                 if let Some(f) = HANG_FILE.get() {
                     let _ = std::fs::write(f, doc.to_string());
                 }
-                eprintln!("HANG: the lexer did not return within {HANG_SECS} s on an input of {l} bytes");
+                eprintln!("HANG: the lexer did not return within {HANG_SECS} s of CPU time on an input of {l} bytes");
                 std::process::exit(HANG_EXIT_CODE);
             }
+        }
         }
     });
 }
@@ -89,6 +125,10 @@ thread_local! {
             since_ms: std::sync::atomic::AtomicU64::new(0),
             ptr: std::sync::atomic::AtomicUsize::new(0),
             len: std::sync::atomic::AtomicUsize::new(0),
+            tid: std::fs::read_link("/proc/thread-self")
+                .ok()
+                .and_then(|p| p.file_name().and_then(|n| n.to_str().and_then(|t| t.parse().ok())))
+                .unwrap_or(0),
         });
         if let Ok(mut g) = SLOTS.lock() {
             g.push(s.clone());
